@@ -336,7 +336,7 @@ def check_cross(ctx, cases):
     for c in cases:
         fs = forms(c['version'] == '1.1')
         a, b = form_coq_tns(fs[c['i']], TNS), form_coq_tns(fs[c['j']], ANS)
-        terms.append('(is_overlap %s %s, is_overlap %s %s)' % (a, b, b, a))
+        terms.append('(is_overlap %s %s, is_overlap %s %s, is_restriction %s %s, is_restriction %s %s)' % (a, b, b, a, a, b, b, a))
     model = common.coq_eval('C16c', IMPORTS, '', terms)
     for c, o, m in zip(cases, impl, model):
         fs = forms(c['version'] == '1.1')
@@ -351,8 +351,11 @@ def check_cross(ctx, cases):
         for name, v in (('a.is_overlap(b)', o['ab']), ('b.is_overlap(a)', o['ba'])):
             if v != inter:
                 problems.append(('primary', '%s=%s but the sets %s on the universe' % (name, v, 'intersect' if inter else 'are disjoint')))
-        if (o['ab'], o['ba']) != tuple(m):
-            problems.append(('aux', 'model/implementation differ on overlap: impl=%s model=%s' % ((o['ab'], o['ba']), m)))
+        if (o['ab'], o['ba']) != tuple(m[:2]):
+            problems.append(('aux', 'model/implementation differ on overlap: impl=%s model=%s' % ((o['ab'], o['ba']), m[:2])))
+        if (o.get('ra'), o.get('rb')) != tuple(m[2:]):
+            problems.append(('aux', 'model/implementation differ on restriction across target namespaces: impl=%s model=%s'
+                             % ((o.get('ra'), o.get('rb')), m[2:])))
         sa, sb = form_set_tns(fa, TNS), form_set_tns(fb, ANS)
         for name, v, d, bse in (('a.is_restriction(b)', o.get('ra'), sa, sb), ('b.is_restriction(a)', o.get('rb'), sb, sa)):
             if v and not all(y for x, y in zip(d, bse) if x):
